@@ -172,11 +172,13 @@ def showincludes(ck, ctx):
         ck.ob("showincludes", "output-filtered", len(filt) == 1 and all(r[0] == "call" and r[1].endswith("Vec::new") for r in raw) and len(o_alts) == 2, "TaskResult.output is the filtered text (component 1 of extract_showincludes) when enabled, else the raw buffer: %s" % show(oe, 3), span=s.get("loc"), fn=b.nname)
         # once enabled, the filtered text always replaces the buffer before the result is built
         repl = []
+        out_op = s["rv"]["ops"][fields.index("output")]
+        out_local = R01._copy_source(b, bb, out_op["place"]["l"]) if out_op["k"] in ("copy", "move") and not out_op["place"]["p"] else None
         for bi in cfg.reach:
             for s_ in b.blocks[bi]["stmts"]:
                 if s_["k"] == "assign" and not s_["place"]["p"]:
                     e_ = strip(R.stmt_rvalue(bi, s_))
-                    if e_ in filt and b.local_ty(s_["place"]["l"]) == "std::vec::Vec<u8>" and s_["place"]["l"] in b.names:
+                    if e_ in filt and s_["place"]["l"] == out_local:
                         repl.append(bi)
         starts_ps = [tt for (x, lab) in g_ps for tt in cfg.edge_targets(x, lab)]
         r_ps = cfg.reach_avoid(starts_ps, avoid_blocks=repl)
